@@ -94,3 +94,52 @@ func checkFrontMatter(rc *Run) error {
 	_ = time.Second
 	return nil
 }
+
+// the no-fault schedule of InPlace.tla on the concrete kinds of target a path can name: a regular file and a symbolic link
+// to one, under several permission modes, with eval and eval-all: exit 0, the content read through the path is what the
+// command prints without -i, and the permission bits read through the path are the original ones
+func checkTargetKinds(rc *Run) error {
+	dir := filepath.Join(rc.Out, "kinds")
+	os.MkdirAll(dir, 0o755)
+	runs := 0
+	for _, mode := range []os.FileMode{0o600, 0o640, 0o644, 0o664, 0o755} {
+		for _, kind := range []string{"regular", "symlink"} {
+			for _, sub := range []string{"", "ea"} {
+				os.RemoveAll(dir)
+				os.MkdirAll(dir, 0o755)
+				real := filepath.Join(dir, "real.yml")
+				os.WriteFile(real, []byte("a: 1\nb: [x, y]\n"), 0o600)
+				os.Chmod(real, mode)
+				path := "real.yml"
+				if kind == "symlink" {
+					os.Symlink("real.yml", filepath.Join(dir, "link.yml"))
+					path = "link.yml"
+				}
+				args := []string{}
+				if sub != "" {
+					args = append(args, sub)
+				}
+				ref := runProc(dir, nil, append(append([]string{}, args...), ".a = 2", path)...)
+				p := runProc(dir, nil, append(append([]string{}, args...), "-i", ".a = 2", path)...)
+				runs++
+				concrete := M{"machine": "InPlace", "concrete": M{"argv": append(append([]string{"yq"}, args...), "-i", ".a = 2", path), "target": kind, "mode": fmt.Sprintf("%o", mode)}}
+				after, _ := os.ReadFile(filepath.Join(dir, path))
+				st, err := os.Stat(filepath.Join(dir, path)) // follows the link
+				switch {
+				case p.Code != 0:
+					rc.Report("in-place-kind:fails:"+kind, fmt.Sprintf("yq -i on a %s target (mode %o) fails: %s", kind, mode, firstLine(p.Stderr)), concrete)
+				case string(after) != ref.Stdout:
+					rc.Report("in-place-kind:content:"+kind, fmt.Sprintf("yq -i on a %s target: the path reads %q, the command without -i prints %q", kind, after, ref.Stdout), concrete)
+				case err != nil || st.Mode().Perm() != mode:
+					got := os.FileMode(0)
+					if err == nil {
+						got = st.Mode().Perm()
+					}
+					rc.Report("in-place-kind:mode:"+kind, fmt.Sprintf("yq -i on a %s target of mode %o leaves mode %o", kind, mode, got), concrete)
+				}
+			}
+		}
+	}
+	rc.Set("target_kind_runs", runs)
+	return nil
+}
